@@ -386,8 +386,12 @@ func (gw *GlobalWindow) findOutputSpec(aggType aggregator.AggregateType, inputFi
 	return -1
 }
 
+// normalizeField canonicalizes an aggregate's input field for matching. Field
+// names are case-sensitive row keys (lookupFieldValue), so only blanks and the
+// empty argument list (COUNT() == COUNT(*)) are normalized; folding case would
+// bind SUM(V) in TRIGGER WHEN to a selected SUM(v) and read the wrong column.
 func normalizeField(f string) string {
-	f = strings.TrimSpace(strings.ToLower(f))
+	f = strings.TrimSpace(f)
 	if f == "" {
 		return "*"
 	}
